@@ -19,7 +19,8 @@ def _is_cursor_ident(c, key_expr):
         t = hir.peel(c, e["base"]["t"])
         for a in e["base"].get("adj") or []:
             t = hir.peel(c, a["to"])
-        return t["k"] == "adt" and t["p"] == "lsp4spl::features::Ident"
+        # (the feature layer's identifier-under-the-cursor type, wherever in lsp4spl::features it is declared)
+        return t["k"] == "adt" and t["p"].startswith("lsp4spl::features::") and t["p"].endswith("::Ident")
     return False
 
 
@@ -337,8 +338,8 @@ def rule_scope_order(prog):
                 for k_ in kids[:idx[0]] if idx else []:
                     iff = hir.strip(hir.stmt_inner(k_) or k_) if k_.get("k") in ("Semi", "Expr") else hir.strip(k_)
                     if iff.get("k") == "If" and any(True for _ in hir.nodes(iff["then"], "Ret")):
-                        for m_ in hir.nodes_deep(prog, iff["cond"], 2, crate=bc):
-                            pats = [a_["pat"] for a_ in m_["arms"]] if m_.get("k") == "Match" else [m_["pat"]] if m_.get("k") == "LetExpr" else []
+                        for m_ in hir.nodes_deep(prog, iff["cond"], 4, crate=bc, values=True):
+                            pats = [a_["pat"] for a_ in m_["arms"]] if m_.get("k") == "Match" else [m_["pat"]] if m_.get("k") in ("LetExpr", "Let") and m_.get("pat") else []
                             if any(v.endswith("ast::TypeExpression::ArrayType") for pt in pats for v in hir.pat_variants_all(pt)):
                                 ruled_out = True
             n_sites += 1
@@ -788,6 +789,23 @@ def _position_effect(prog, b, node, parents, cmap, depth):
             ms = _markers_in(prog, cond, bc)
             if not ({"Colon", "Of"} <= ms or "NamedType" in ms) or guarded is None:
                 continue
+            # the guarded branch may only *classify* the position (`.. { Scopes::GlobalOnly } else { Scopes::LocalThenGlobal }`): the
+            # effect then sits in the arm of a `match` on that classification
+            gv = hir.strip(guarded)
+            if gv.get("k") == "BlockExpr" and not gv["b"].get("stmts") and gv["b"].get("expr") is not None:
+                gv = hir.strip(gv["b"]["expr"])
+            if gv.get("k") == "Ret" and gv.get("e") is not None:
+                gv = hir.strip(gv["e"])
+            cls_variant = None
+            if gv.get("k") == "Path" and str((gv.get("res") or {}).get("dk", "")).startswith("Ctor(Variant, Const)") and \
+                    ((gv["res"].get("ctor_of") or "").startswith("lsp4spl::")):
+                cls_variant = gv["res"]["ctor_of"]
+            if cls_variant is not None:
+                for r2 in roots:
+                    for y in hir.nodes_deep(prog, r2, 5, crate=bc):
+                        if y.get("k") == "Arm" and cls_variant in hir.pat_variants_all(y["pat"]) and _drops_local_scope(prog, y["body"], bc, none_tables):
+                            return True
+                continue
             seen_guard = True
             if _drops_local_scope(prog, guarded, bc, none_tables):
                 return True
@@ -1081,7 +1099,13 @@ def rule_entry_kind(prog):
                 for alt in hir.pat_alternatives(p_):
                     if (hir.pat_variant(alt) or "").startswith(ENTRY + "::"):
                         mentions = True
+        from .rules_tables import eval_for_variant
         for kind in ("Variable", "Parameter"):
+            # the answer for this kind, computed through helpers and early returns (`let Some(name) = self.global_name() else { return false }`)
+            val = eval_for_variant(prog, b, ENTRY, kind)
+            if val is False or str(val) == "False":
+                out.add("table::Entry::is_default", "%s entries are never predefined" % kind, True, fc.loc(b["sp"]), "")
+                continue
             out.add("table::Entry::is_default", "%s entries are never predefined" % kind, None if mentions else False, fc.loc(b["sp"]),
                     "is_default() does not distinguish entry kinds any more: a local variable or parameter that is named like "
                     "a builtin (`time`, `exit`, ...) counts as predefined and go-to returns nothing for it")
@@ -2033,7 +2057,9 @@ def rule_same_finder(prog):
             if last(e["res"].get("ctor_of", "")) == "None":
                 return "None"
             if e["res"].get("k") == "Local":
-                return "local<%s>" % c.tstr(e["t"]).replace(" ", "")
+                # (by reference or by value: the same thing is asked about)
+                return "local<%s>" % c.tstr(e["t"]).replace(" ", "").lstrip("&").replace("mut", "", 1) if c.tstr(e["t"]).startswith("&") \
+                    else "local<%s>" % c.tstr(e["t"]).replace(" ", "")
             return "path:%s" % last(e["res"].get("p", "?"))
         if k == "Field":
             return ".%s" % e["name"]
